@@ -92,7 +92,7 @@ _KX_TRUST = ['Kani 0.68 / CBMC 6.11 (soundness of the bounded model checker; loo
              'tracing macros are no-ops in the Kani build (kx/tracing-stub) - drops exactly what rule R1 drops']
 _ATTR_K = ['k08_priority', 'k08_priority_new', 'k08_use_candidate', 'k08_ice_controlled', 'k08_ice_controlling', 'k08_ice_new',
            'k_fingerprint', 'k09_fingerprint_xor', 'k08_message_integrity', 'k08_userhash', 'k08_xor_mapped_decode',
-           'k08_alternate_server_decode', 'k08_alternate_server_new', 'k08_password_algorithm', 'k08_error_code_pairs', 'k08_error_code_new', 'k_check_len']
+           'k08_alternate_server_decode', 'k08_alternate_server_new', 'k08_password_algorithm', 'k08_error_code_pairs', 'k08_error_code_new', 'k_check_len', 'k08_unknown_attributes_small']
 
 PROPS['C19'] = {
     'level': 'proof',
@@ -136,14 +136,14 @@ PROPS['C08'] = {
                'ERROR-CODE class/number arithmetic on all 65536 byte pairs; ErrorCode::new accepts exactly 300..=699', 'check_len for all lengths and range shapes',
                '(Verus, unit attrs, value strings of ANY length) USERNAME / REALM / NONCE / SOFTWARE / ALTERNATE-DOMAIN: accepted <=> type code, length limit (513 / 763 / none), valid UTF-8; the text encodes to exactly the value bytes. ERROR-CODE: accepted <=> 4..=767 bytes, class 3..6, number <= 99, UTF-8 reason; code and reason exposed. PASSWORD-ALGORITHM(S): accepted <=> positive multiple of 4, every entry algorithm 1|2 with empty parameters; list exposed in order. PRIORITY, USE-CANDIDATE, ICE-CONTROLLED/-CONTROLLING, USERHASH, MESSAGE-INTEGRITY(-SHA256) also in Verus; wrong type => WrongAttributeImplementation',
                '(Verus) encode side within reach: RawAttribute::new; USERNAME/REALM/NONCE/SOFTWARE get_type, length() == UTF-8 byte length, to_raw() carries the type code and exactly the UTF-8 bytes, getters return the text'],
-    'bounded': ['(in-place writers of 12 types + raw attributes are proved in unit writers, see C12) writers and to_raw of ERROR-CODE / UNKNOWN-ATTRIBUTES / PASSWORD-ALGORITHMS, constructors (vstd specifies str::len only for ASCII), UNKNOWN-ATTRIBUTES decoder (chunks_exact iterator): BX, all lengths 0..=800 with ASCII / multi-byte UTF-8 / invalid UTF-8 fillers'],
+    'bounded': ['(in-place writers of 12 types + raw attributes are proved in unit writers, see C12) writers and to_raw of ERROR-CODE / UNKNOWN-ATTRIBUTES / PASSWORD-ALGORITHMS, constructors (vstd specifies str::len only for ASCII): BX; UNKNOWN-ATTRIBUTES decoder (chunks_exact iterator): Kani bounded (values of 0..=8 bytes) + BX, all lengths 0..=800 with ASCII / multi-byte UTF-8 / invalid UTF-8 fillers'],
     'trusted': _KX_TRUST,
 }
 PROPS['C12'] = {
     'level': 'exploration',
     'trusted_extra': ['sub-slice write shims slice_copy_at / slice_fill_at / be_write_uN_at_slice (vx/shims/slices.rs; cross-checked by KX k_shim_slices), String::as_bytes/len = UTF-8 encoding (vx/shims/string.rs)'],
     'vx': [{'unit': 'writers'}, {'unit': 'attrs', 'functions': ['to_raw', 'length', 'get_type', "RawAttribute<'a> :: new", 'padded']}],
-    'kx': ['k_shim_slices', 'k_shim_write_u16'] + ['k12_raw_attribute'] + [k for k in _ATTR_K if k not in ('k_check_len', 'k08_error_code_new')],
+    'kx': ['k_shim_slices', 'k_shim_write_u16'] + ['k12_raw_attribute'] + [k for k in _ATTR_K if k not in ('k_check_len', 'k08_error_code_new', 'k08_unknown_attributes_small')],
     'bx': ['c12'],
     'rule': 'Kani harnesses: helper check_writers (in-place writer vs RFC layout vs raw conversion, 0xAA-filled oversize buffer, every shorter buffer) on every decodable value of the fixed-size types; BX for variable-length types and builders.',
     'proved': ['(Verus, unit writers, values of ANY length) AttributeWriteExt::write_into: destination shorter than the padded length => Err(TooSmall{expected: padded, actual}) and nothing written; otherwise exactly the padded TLV (type, declared length == value length, value, zero padding) and nothing beyond it is touched, the padded length returned',
